@@ -320,20 +320,30 @@ def ansLeaf (r : Res) (q : Req) : Ans :=
 
 def lower (s : Str) : Str := s.map (fun c => if 65 ≤ c ∧ c ≤ 90 then c + 32 else c)
 
+/-- try every split point for one `*` (longest remainder skipped first, as `.*` backtracks) -/
+def starLoop (k : Str → Bool) (s : Str) : Nat → Bool
+  | 0 => k s
+  | n + 1 => k (s.drop (n + 1)) || starLoop k s n
+
 /-- `fullmatch` of a `*`-glob (`MaskDomain._mask`: `.` escaped, `*` → `.*`) -/
 def globMatch : Str → Str → Bool
   | [], s => s.isEmpty
   | c :: pt, s =>
-    if c = 42 then globStar pt s s.length
+    if c = 42 then starLoop (fun s' => globMatch pt s') s s.length
     else match s with
       | [] => false
       | d :: st => c == d && globMatch pt st
-where
-  globStar (pt : Str) (s : Str) : Nat → Bool
-    | 0 => globMatch pt s
-    | n + 1 => globMatch pt (s.drop (n + 1)) || globStar pt s n
 
-/-- `Domain.match` / `MaskDomain.match_domain` -/
+/-- the character class of `.` as Python `re` sees it (generated: regex text `.*`) -/
+def dotClass : List (Nat × Nat) :=
+  match lookupClass [46, 42] with
+  | some (rs, _) => rs
+  | none => []
+
+/-- `Domain.match` / `MaskDomain.match_domain`: the mask regex (`.` escaped, `*` → `.*`) must match
+the **whole** host (`fullmatch`); the literal characters of a validated domain are `[a-z0-9.:*-]`,
+all inside the class of `.`, so "every `*` run avoids what `.` rejects" is "no host character is
+outside the class of `.`" -/
 def ruleMatch (rule : Rule) (host : Option Str) : Bool :=
   match host with
   | none => false
@@ -341,7 +351,7 @@ def ruleMatch (rule : Rule) (host : Option Str) : Bool :=
     if h.isEmpty then false else
     match rule with
     | .exact d => lower h == d
-    | .mask d => globMatch d h && !h.contains 10
+    | .mask d => globMatch d h && h.all (inRanges dotClass)
 
 /-- first `final` wins; otherwise 405 with everything accumulated, or 404 -/
 def combine : List Ans → List Str → Result
